@@ -1,7 +1,8 @@
 """impl worker for C14.  stdin: JSON list of cases; stdout: JSON list of results.
 case {"v": <tagged value>, "indent": int|null}
    -> {"text": value_json(v, indent), "stext": jsonStringify through a script, "back": tagged jsonParse(stext) through
-       the same script}   (each leg may instead be {"exc": type name, "msg": str})
+       the same script, taken from a SECOND jsonParse of the text after the first result was mutated: every parse must give a
+       fresh value}   (each leg may instead be {"exc": type name, "msg": str})
 case {"parse": text}
    -> {"parsed": tagged SCRIPT_FUNCTIONS['jsonParse']([text])} | {"exc": ..., "msg": ...}
 tagged value: ["n"] | ["b", bool] | ["i", "<decimal>"] | ["f", float.hex()] | ["s", str] | ["a", [..]] | ["o", [[key, value]..]]"""
@@ -52,11 +53,23 @@ def tag(x):
 
 SCRIPT_PLAIN = parse_script('''\
 text = jsonStringify(v)
+first = jsonParse(text)
+if systemType(first) == 'array':
+    arrayPush(first, 'MUTATED')
+elif systemType(first) == 'object':
+    objectSet(first, '__mutated', 1)
+endif
 back = jsonParse(text)
 return arrayNew(text, back)
 ''')
 SCRIPT_INDENT = parse_script('''\
 text = jsonStringify(v, indent)
+first = jsonParse(text)
+if systemType(first) == 'array':
+    arrayPush(first, 'MUTATED')
+elif systemType(first) == 'object':
+    objectSet(first, '__mutated', 1)
+endif
 back = jsonParse(text)
 return arrayNew(text, back)
 ''')
